@@ -950,6 +950,13 @@ class Executor:
             st.assume(od(mk(k)) == k)           # members are pairwise distinct
             return Val(et, mk(k))
         if isinstance(obj, FuncRef):
+            # a class-level constant `Class.NAME = <expr>` of the current module: its real defining expression
+            for n_ in getattr(self.module, "body", []):
+                if isinstance(n_, ast.ClassDef) and n_.name == obj.qual:
+                    for b_ in n_.body:
+                        if isinstance(b_, ast.Assign) and len(b_.targets) == 1 and isinstance(b_.targets[0], ast.Name) \
+                                and b_.targets[0].id == name:
+                            return self.ev1(b_.value, State({}, st.heap, st.pc, st.next_ref, st.ghost, st.labels))[0]
             return FuncRef(obj.qual + "." + name)
         if self.lenient and isinstance(obj, BoundMethod):
             return Unknown(f"attribute of an untracked attribute ({obj.name}.{name})")
